@@ -914,7 +914,7 @@ fn run_format_batch(ctx: &mut Ctx, vi: usize, start: usize, specs: &[Spec]) {
 // (c) escape codes in literals
 
 /// (source text, decoded text or None when the literal must be rejected, is_escape)
-fn escape_parts() -> Vec<(&'static str, Option<&'static str>, bool)> {
+pub fn escape_parts() -> Vec<(&'static str, Option<&'static str>, bool)> {
     vec![
         ("a", Some("a"), false),
         ("é", Some("é"), false),
